@@ -18,6 +18,10 @@ pub enum Op {
     Pos,
     SetPos(u64),
     Len,
+    /// readers: replace the object by its clone (must be the same array and cursor)
+    Clone,
+    /// writers: WordWrite::flush (must change nothing observable)
+    Flush,
 }
 
 #[derive(Clone, Debug, PartialEq, Eq, Hash, Serialize, Deserialize)]
@@ -118,12 +122,20 @@ pub fn model_step(kind: &str, wbits: usize, s: &MState, op: Op) -> Option<(Obs, 
             "slice" | "vec" => Obs::Num(len),
             _ => return None,
         },
+        Op::Clone => match kind {
+            "reader-zx" | "reader-strict" => Obs::Unit,
+            _ => return None,
+        },
+        Op::Flush => match kind {
+            "slice" | "vec" => Obs::Unit,
+            _ => return None,
+        },
     };
     Some((obs, n))
 }
 
 pub fn alphabet(len_now: usize) -> Vec<Op> {
-    let mut a = vec![Op::Read, Op::Write(0), Op::Write(1), Op::Write(2), Op::Pos, Op::Len];
+    let mut a = vec![Op::Read, Op::Write(0), Op::Write(1), Op::Write(2), Op::Pos, Op::Len, Op::Clone, Op::Flush];
     for p in 0..=(len_now as u64 + 2) {
         a.push(Op::SetPos(p));
     }
@@ -166,6 +178,8 @@ fn run_real_inner(kind: &str, wbits: usize, borrowed: bool, init: &[u128], ops: 
                         Err(_) => Obs::Err,
                     },
                     Op::Len => drive!(@len $has_len, o),
+                    Op::Clone => drive!(@clone $can_write, o),
+                    Op::Flush => drive!(@flush $can_write, o),
                 };
                 obs.push(r);
             }
@@ -182,6 +196,22 @@ fn run_real_inner(kind: &str, wbits: usize, borrowed: bool, init: &[u128], ops: 
             let _ = $l;
             Obs::Na
         }};
+        (@clone no, $o:ident) => {{
+            $o = $o.clone();
+            Obs::Unit
+        }};
+        (@clone yes, $o:ident) => {
+            Obs::Na
+        };
+        (@flush yes, $o:ident) => {
+            match $o.flush() {
+                Ok(()) => Obs::Unit,
+                Err(_) => Obs::Err,
+            }
+        };
+        (@flush no, $o:ident) => {
+            Obs::Na
+        };
         (@len yes, $o:ident) => {
             Obs::Num($o.len() as u64)
         };
@@ -484,7 +514,7 @@ pub fn c13(ctx: &Ctx) -> (CheckMeta, Outcome) {
     let meta = CheckMeta {
         property: "C13".into(),
         level: "model_checking".into(),
-        rule: "explicit-state BFS to the fixpoint over the REAL objects (MemWordReader zero-extended and strict, MemWordWriterSlice, MemWordWriterVec; word types u8..u128; owned and borrowed storage), rebuilt by replaying the shortest history; initial arrays: every array of length 0..=3 (thorough 0..=4) over the letters {0, 1, MAX}; operations read_word, write_word(letter), word_pos, set_word_pos(0..=len+2, 2^40 and 7 far positions with high bits set + 0..=len+1), len; one long history of 300 000 (thorough 5 000 000) reads past the end of the zero-extended reader; vector growth capped at 5 words and zero-extended reads at len+3 to close the space; every return value, the final contents (into_inner / the borrowed storage) and the cursor (word_pos) after every transition vs a Vec+cursor model (errors leave the cursor unchanged); the same transition system is run under stateright's BFS checker with real objects rebuilt from state snapshots and the number of distinct model states reached by the two engines must agree".into(),
+        rule: "explicit-state BFS to the fixpoint over the REAL objects (MemWordReader zero-extended and strict, MemWordWriterSlice, MemWordWriterVec; word types u8..u128; owned and borrowed storage), rebuilt by replaying the shortest history; initial arrays: every array of length 0..=3 (thorough 0..=4) over the letters {0, 1, MAX}; operations read_word, write_word(letter), word_pos, set_word_pos(0..=len+2, 2^40 and 7 far positions with high bits set + 0..=len+1), len, clone (readers: the clone replaces the object) and WordWrite::flush (writers); one long history of 300 000 (thorough 5 000 000) reads past the end of the zero-extended reader; vector growth capped at 5 words and zero-extended reads at len+3 to close the space; every return value, the final contents (into_inner / the borrowed storage) and the cursor (word_pos) after every transition vs a Vec+cursor model (errors leave the cursor unchanged); the same transition system is run under stateright's BFS checker with real objects rebuilt from state snapshots and the number of distinct model states reached by the two engines must agree".into(),
         assumptions: vec!["cursor values at usize::MAX are outside the alphabet (as in the library's own fuzz harness)".into()],
     };
     (meta, out)
